@@ -155,26 +155,6 @@ def run(ctx, mode='C02'):
                       {'kind': 'proof', 'theorem': 'Props/%s.v' % mode, 'build_error': cov.get('build_error')}, found_input=False)
 
 
-def corpus_x():
-    A = lambda d, x, reads=(): ('assign', list(reads), [(d, x)], 'plain')
-    R = lambda r, x: ('expr', [(r, x)])
-    IF = lambda body: ('if', [], body, [('pass',)], [])
-    return [
-        # F62: a binding before a conditional break, overwritten behind it, is read behind the loop
-        [A(1, 'x'), ('for', [], [(2, 'y')], [A(3, 'x'), IF([('break',)]), A(4, 'x')], [('pass',)]), R(10, 'x')],
-        # ... before a conditional continue, read at the top of the next trip
-        [A(1, 'x'), ('while', [], [R(10, 'x'), A(2, 'x'), IF([('continue',)]), A(3, 'x')], [('pass',)], [])],
-        # F62b: the exit sits in a with block, bindings follow it in the loop body
-        [A(1, 'a'), ('while', [(10, 'a')], [('with', [], [(2, 'a')], [('continue',)]), A(3, 'a')], [('pass',)], [])],
-        # break skips the else clause; a break in the else clause belongs to the outer loop
-        [A(1, 'x'), ('for', [], [(2, 'y')], [('for', [], [(3, 'z')], [A(4, 'x'), IF([('break',)])], [A(5, 'x'), IF([('break',)]), A(6, 'x')])], [R(10, 'x')]), R(11, 'x')],
-        # continue inside try/except (no finally), break inside a handler
-        [A(1, 'x'), ('while', [], [('try', [A(2, 'x'), IF([('continue',)]), A(3, 'x')], [([], None, [A(4, 'x'), IF([('break',)]), A(5, 'x')])], [('pass',)], [('pass',)], True, True), R(10, 'x')], [R(11, 'x')], []), R(12, 'x')],
-        # return in a loop body, loop-carried binding behind it
-        [A(1, 'x'), ('for', [(10, 'x')], [(2, 'y')], [IF([('return',)]), A(3, 'x')], [('pass',)]), R(11, 'x')],
-    ]
-
-
 def part_x(ctx):
     """EXTENSION beyond the property's stated domain ("loops left only by exhaustion"): C02 with loop exits
     (return / break / continue; fragment okx of Model/ReachX.v): theorem C02X_sound. Failures here are
@@ -183,7 +163,7 @@ def part_x(ctx):
     cov = ctx.coverage
     nprog = ctx.pick(100, 1000)
     cap = ctx.pick(40, 160)
-    trees = [(t, 'func') for t in corpus_x()]
+    trees = [(t, 'func') for t in rc.corpus_x()]
     for i in range(nprog):
         scope = ctx.rng.choice(['func'] * 8 + ['module'] * 2)
         g = pygen.Gen(ctx.rng, allow_return=(scope == 'func'), exits=True, loop_exits_only=True, full_raise=False,
